@@ -67,6 +67,7 @@ fn balances(l: &AccountLoader<'static, Market>) -> (u64, u64) {
 /// returns (canonical request incl. observed hop outputs, response, observed hops)
 fn exec(req: &str) -> Option<(String, String, Vec<(u64, bool, u128, u128)>)> {
     let t: Vec<&str> = req.split(' ').collect();
+    if t.len() >= 2 && t[0] == "rt" && t[1] == "create" { return exec_create(&t).map(|(c, r)| (c, r, vec![])); }
     if t.len() < 13 || t[0] != "rt" || t[1] != "swap" { return None; }
     let into = t[2] == "1";
     let cur = parse_m(t[3])?;
@@ -151,6 +152,142 @@ fn exec(req: &str) -> Option<(String, String, Vec<(u64, bool, u128, u128)>)> {
     Some((canon, resp, hops))
 }
 
+
+// ---------------------------------------------------------------------------------------------
+// creation time: the real `SwapActionParamsExt::validate_and_init` (hook `validate_and_init`)
+#[derive(Clone, Debug, PartialEq)]
+struct CM { key: u64, tok: u64, index: u64, long: u64, short: u64, usable: u64 }
+
+fn parse_cm(s: &str) -> Option<CM> {
+    let v: Vec<u64> = s.split(':').map(|x| x.parse().ok()).collect::<Option<_>>()?;
+    if v.len() != 6 || v[5] > 1 { return None; }
+    Some(CM { key: v[0], tok: v[1], index: v[2], long: v[3], short: v[4], usable: v[5] })
+}
+fn fmt_cm(m: &CM) -> String { format!("{}:{}:{}:{}:{}:{}", m.key, m.tok, m.index, m.long, m.short, m.usable) }
+fn fmt_list(p: &[u64]) -> String { if p.is_empty() { "-".to_string() } else { p.iter().map(|x| x.to_string()).collect::<Vec<_>>().join(",") } }
+
+/// `rt create <cur> <plen> <slen> <accs|-> <tinP> <tinS> <toutP> <toutS>`; a market is `key:token:index:long:short:usable`
+fn exec_create(t: &[&str]) -> Option<(String, String)> {
+    if t.len() != 10 { return None; }
+    let cur = parse_cm(t[2])?;
+    let (plen, slen): (u64, u64) = (t[3].parse().ok()?, t[4].parse().ok()?);
+    if plen > 255 || slen > 255 { return None; }
+    let accs: Vec<CM> = if t[5] == "-" { vec![] } else { t[5].split(',').map(parse_cm).collect::<Option<_>>()? };
+    let tk: Vec<u64> = t[6..10].iter().map(|x| x.parse().ok()).collect::<Option<_>>()?;
+    // one account per address: the same address must always carry the same market
+    for a in accs.iter() { for b in accs.iter().chain(std::iter::once(&cur)) { if a.key == b.key && a != b { return None; } } }
+    let store = pk(7);
+    let mut built: std::collections::BTreeMap<u64, AccountInfo<'static>> = Default::default();
+    let mut mk = |m: &CM| -> AccountInfo<'static> {
+        built.entry(m.key).or_insert_with(|| {
+            // an unusable market: of another store (even addresses) or disabled (odd addresses)
+            let (st, enabled) = if m.usable == 1 { (store, true) } else if m.key % 2 == 0 { (pk(77), true) } else { (store, false) };
+            zero_copy_account::<Market>(pk(5000 + m.key), gmsol_store::ID, |mk| {
+                mk.init(255, st, "m", tokpk(m.tok), tokpk(m.index), tokpk(m.long), tokpk(m.short), enabled).unwrap();
+            })
+        }).clone()
+    };
+    let cur_info: &'static AccountInfo<'static> = Box::leak(Box::new(mk(&cur)));
+    let cur_loader = AccountLoader::<Market>::try_from(cur_info).ok()?;
+    let paths: Vec<AccountInfo<'static>> = accs.iter().map(|m| mk(m)).collect();
+    let paths: &'static [AccountInfo<'static>] = Box::leak(paths.into_boxed_slice());
+    let res = hook::validate_and_init(&cur_loader, plen as u8, slen as u8, paths, &store, (tokpk(tk[0]), tokpk(tk[1])), (tokpk(tk[2]), tokpk(tk[3])));
+    let canon = t.join(" ");
+    let resp = match res {
+        Err(_) => "err".to_string(),
+        Ok(params) => {
+            let back = |p: &Pubkey| -> u64 {
+                accs.iter().chain(std::iter::once(&cur)).flat_map(|m| [m.tok, m.index, m.long, m.short]).find(|x| tokpk(*x) == *p).unwrap_or(u64::MAX)
+            };
+            let p1: Vec<u64> = params.primary_swap_path().iter().map(back).collect();
+            let p2: Vec<u64> = params.secondary_swap_path().iter().map(back).collect();
+            let stored = params.tokens();
+            if !stored.windows(2).all(|w| w[0] < w[1]) { return Some((canon, "ok-but-tokens-unsorted".into())); }
+            let mut toks: Vec<u64> = stored.iter().map(back).collect();
+            toks.sort();
+            format!("ok {} | {} | {} | {}", fmt_list(&p1), fmt_list(&p2), fmt_list(&toks), back(&params.current_market_token))
+        }
+    };
+    Some((canon, resp))
+}
+
+/// property oracle for creation, independent of the Lean model
+fn create_oracle(canon: &str, resp: &str, out: &mut Out) {
+    let t: Vec<&str> = canon.split(' ').collect();
+    if t.len() != 10 { return; }
+    let (Some(cur), Ok(plen), Ok(slen)) = (parse_cm(t[2]), t[3].parse::<usize>(), t[4].parse::<usize>()) else { return };
+    let accs: Vec<CM> = if t[5] == "-" { vec![] } else { t[5].split(',').filter_map(parse_cm).collect() };
+    let tk: Vec<u64> = t[6..10].iter().filter_map(|x| x.parse().ok()).collect();
+    if resp == "ok-but-tokens-unsorted" { out.oracle_fail("the token list written at creation is not strictly increasing", canon); return; }
+    if !resp.starts_with("ok") { out.stat("create.err"); return; }
+    out.stat("create.ok");
+    if plen + slen > 10 { out.oracle_fail("a swap path longer than the ten-step limit was accepted at creation", canon); return; }
+    if accs.len() < plen + slen { out.oracle_fail("creation accepted more steps than market accounts were supplied", canon); return; }
+    let sides = [(&accs[..plen], tk[0], tk[2], "primary"), (&accs[plen..plen + slen], tk[1], tk[3], "secondary")];
+    let f: Vec<&str> = resp[3..].split(" | ").collect();
+    for (i, (side, tin, tout, name)) in sides.iter().enumerate() {
+        let mut keys: Vec<u64> = side.iter().map(|m| m.key).collect(); keys.sort(); keys.dedup();
+        if keys.len() != side.len() { out.oracle_fail(&format!("a {name} path with a duplicated market was accepted at creation"), canon); }
+        if side.iter().any(|m| m.long == m.short) { out.oracle_fail(&format!("a {name} path with a no-op step was accepted at creation"), canon); }
+        if side.iter().any(|m| m.usable == 0) { out.oracle_fail(&format!("a {name} path through a disabled market or a market of another store was accepted at creation"), canon); }
+        let mut tok = *tin; let mut broken = false;
+        for m in side.iter() { if tok == m.long { tok = m.short } else if tok == m.short { tok = m.long } else { broken = true; break; } }
+        if broken { out.oracle_fail(&format!("a {name} path with a step that does not convert the previous step's output token was accepted at creation"), canon); }
+        else if tok != *tout { out.oracle_fail(&format!("a {name} path that does not end in the declared output token was accepted at creation"), canon); }
+        let want = fmt_list(&side.iter().map(|m| m.tok).collect::<Vec<_>>());
+        if f.get(i).map(|x| x.trim()) != Some(want.as_str()) { out.oracle_fail(&format!("the stored {name} path differs from the supplied markets in order"), canon); }
+        out.stat(&format!("create.{name}_len.{}", side.len()));
+    }
+    let mut want: Vec<u64> = accs[..plen + slen].iter().chain(std::iter::once(&cur)).flat_map(|m| [m.index, m.long, m.short]).collect();
+    want.sort(); want.dedup();
+    if f.get(2).map(|x| x.trim()) != Some(fmt_list(&want).as_str()) { out.oracle_fail("the token list written at creation is not exactly the tokens of the current market and of the markets on both paths", canon); }
+}
+
+fn gen_create(r: &mut Rng) -> String {
+    let ntok = r.range(2, 6);
+    let nm = if r.chance(1, 4) { r.range(6, 13) } else { r.range(0, 6) };
+    let mkm = |r: &mut Rng, id: u64, allow_pure: bool| -> CM {
+        let a = r.below(ntok); let mut b = r.below(ntok);
+        if a == b && !(allow_pure && r.chance(1, 3)) { b = (a + 1) % ntok; }
+        let usable = if id != 0 && r.chance(1, 14) { 0 } else { 1 };
+        CM { key: id, tok: id, index: 20 + r.below(8), long: a, short: b, usable }
+    };
+    let cur = mkm(r, 0, false);
+    let markets: Vec<CM> = (1..=nm).map(|i| mkm(r, i, true)).collect();
+    let all: Vec<&CM> = markets.iter().chain(std::iter::once(&cur)).collect();
+    let walk = |r: &mut Rng, start: u64, len: u64| -> (Vec<CM>, u64) {
+        let mut path: Vec<CM> = Vec::new(); let mut tok = start;
+        for _ in 0..len {
+            let mut cands: Vec<&&CM> = all.iter().filter(|m| m.long == tok || m.short == tok).collect();
+            if !r.chance(1, 8) { cands.retain(|m| !path.iter().any(|p| p.key == m.key)); }
+            if !r.chance(1, 8) { cands.retain(|m| m.long != m.short && m.usable == 1); }
+            if cands.is_empty() { break; }
+            let m = (*cands[r.below(cands.len() as u64) as usize]).clone();
+            tok = if m.long == tok { m.short } else { m.long };
+            path.push(m);
+        }
+        if r.chance(1, 15) && !path.is_empty() { let i = r.below(path.len() as u64) as usize; path[i] = (*all[r.below(all.len() as u64) as usize]).clone(); }
+        (path, tok)
+    };
+    let (tin_p, tin_s) = (r.below(ntok), r.below(ntok));
+    let lp = match r.below(8) { 0 => 0, 1 => r.range(5, 9), _ => r.range(1, 5) };
+    let ls = match r.below(8) { 0 | 1 => 0, 2 => r.range(4, 7), _ => r.range(1, 4) };
+    let (p1, end1) = walk(r, tin_p, lp);
+    let (p2, end2) = walk(r, tin_s, ls);
+    let tout_p = if r.chance(1, 12) { r.below(ntok) } else { end1 };
+    let tout_s = if r.chance(1, 12) { r.below(ntok) } else { end2 };
+    let (mut plen, mut slen) = (p1.len() as u64, p2.len() as u64);
+    let mut accs: Vec<CM> = p1.into_iter().chain(p2.into_iter()).collect();
+    match r.below(12) {
+        0 => { for _ in 0..r.range(1, 3) { accs.push((*all[r.below(all.len() as u64) as usize]).clone()); } }   // extra accounts after the paths
+        1 => { if r.chance(1, 2) { plen += 1 } else { slen += 1 } }                                                // one more step than accounts
+        2 => { if plen > 0 { plen -= 1; slen += 1; } }                                                             // the split point moved
+        _ => {}
+    }
+    format!("rt create {} {} {} {} {} {} {} {}", fmt_cm(&cur), plen, slen,
+        if accs.is_empty() { "-".to_string() } else { accs.iter().map(fmt_cm).collect::<Vec<_>>().join(",") }, tin_p, tin_s, tout_p, tout_s)
+}
+
 fn fmt_m(m: &M) -> String {
     if m.col_l == 0 && m.col_s == 0 { format!("{}:{}:{}:{}:{}:{}:{}", m.tok, m.long, m.short, m.bal_l, m.bal_s, m.min_l, m.min_s) }
     else { format!("{}:{}:{}:{}:{}:{}:{}:{}:{}", m.tok, m.long, m.short, m.bal_l, m.bal_s, m.min_l, m.min_s, m.col_l, m.col_s) }
@@ -195,6 +332,7 @@ fn gen_same_output(r: &mut Rng) -> String {
 }
 
 fn gen_req(r: &mut Rng) -> String {
+    if r.chance(1, 5) { return gen_create(r); }
     if r.chance(1, 8) { return gen_same_output(r); }
     // tokens 0..5, markets 1..6 over random token pairs; the current market is market 0
     let ntok = r.range(2, 5);
@@ -261,6 +399,11 @@ fn main() {
         let r = std::panic::catch_unwind(|| exec(&req));
         let (canon, resp, hops) = match r { Ok(Some(x)) => x, Ok(None) => (req.clone(), "bad-op".to_string(), vec![]), Err(_) => (req.clone(), "panic".to_string(), vec![]) };
         if resp == "panic" { out.oracle_fail("router panicked", &canon); }
+        if canon.starts_with("rt create ") {
+            if resp != "bad-op" && resp != "panic" { create_oracle(&canon, &resp, &mut out); }
+            out.case_nt(&canon, &resp, resp.starts_with("ok ") && !resp.starts_with("ok - | - "));
+            continue;
+        }
         if resp == "ok-but-unbalanced" { out.oracle_fail("a hop did not move exactly the swapped amount between the recorded balances of the markets involved", &canon); }
         if resp.starts_with("ok-but-insolvent") { out.oracle_fail(&format!("the router accepted a swap out of the current market after which paying out the outputs leaves a market's recorded balance below its pool amounts or its position collateral (market, excluded long, excluded short = {})", &resp[17..]), &canon); }
         if resp == "err-but-changed" { out.oracle_fail("a failed swap changed stored recorded balances", &canon); }
